@@ -3,6 +3,7 @@ package vg
 import (
 	"encoding/json"
 	"fmt"
+	"strings"
 )
 
 // histWitness is the replayable witness of a history violation.
@@ -146,6 +147,19 @@ func init() {
 			cfg.W = map[string]int{"sub": 25, "unsub": 8, "get": 4, "add": 14, "remove": 22, "change": 6, "custom": 2, "answer": 8, "quiesce": 2}
 			return cfg
 		})
+		// query resources: subscribers of one normalised query, joined by a new
+		// alias after events were processed, all converge (the C13 cases with
+		// their convergence verdicts attributed to C01)
+		if !c.Race {
+			c.Remap = func(v *VReport) {
+				if v.Prop == "C13" && strings.HasPrefix(v.Sig, "C01.") {
+					v.Prop = "C01"
+					v.Sig = strings.TrimPrefix(v.Sig, "C01.") + ".query"
+				}
+			}
+			c01QueryCases(c)
+			c.Remap = nil
+		}
 	})
 	Register("C02", func(c *RunCtx) {
 		n := c.N(1600, 40000)
